@@ -378,6 +378,8 @@ def run(chk, prog):
             return None if v is None else (not v)
         return atom(c)
 
+    undecided = []
+
     def hypothesis(kind):
         def atom(c):
             txt = A.show(c).replace(" ", "")
@@ -396,6 +398,9 @@ def run(chk, prog):
                 if c.get("k") == "CXXMemberCallExpr" and callee.split("::")[-1] in ("is_open", "good"):
                     return False
             # a named configuration file was given (not empty, not /dev/null, not the optional default.cfg)
+            if "_configfile" in txt and c.get("k") in ("CallExpr", "CXXMemberCallExpr") and c.get("callee_in_root"):
+                undecided.append(A.show(c)[:60])         # a helper of the program decides something about the name: not modelled
+                return None
             if "_configfile" in txt:
                 if c.get("k") in ("CXXOperatorCallExpr", "BinaryOperator") and c.get("op") in ("==", "!="):
                     lits = [y.get("value") for y in A.walk(c) if y.get("k") == "StringLiteral"]
@@ -411,6 +416,7 @@ def run(chk, prog):
     ret_true = lambda n: n.get("k") == "ReturnStmt" and n.get("c") and A.strip(n["c"][0]).get("value") is True
     says = lambda n: n.get("k") == "CXXOperatorCallExpr" and n.get("op") == "<<" or (n.get("callee") or "").endswith("printText")
     for kind, key_, text in (("missing", "parse:missing-file", "a config file that does not exist"), ("unreadable", "parse:unreadable-file", "a config file that cannot be opened")):
+        del undecided[:]
         g_ = gp.pruned(lambda c, a_=hypothesis(kind): tv(c, a_))
         reach = g_.reach_from_entry
         loads = [e for e in g_.events(is_cfg_parse)]
@@ -427,6 +433,9 @@ def run(chk, prog):
             if first_cfg:
                 b0, i0, _ = min(first_cfg, key=lambda e: e[2]["line"])
                 okk = not g_.some_path_between((b0, i0 - 1), ret_true)
+        if not okk and undecided:
+            raise AnalysisBroken("parse(): a condition on the configuration file name is decided inside a helper (%s); the hypothesis '%s' cannot be "
+                                 "evaluated through it" % (sorted(set(undecided)), text))
         chk.check(okk, "R6", pf.where, "%s prints a message and makes parse() return false (CFG of parse() under that hypothesis: config-file parser %s, "
                   "%d `return false`, %d of them without a message)" % (text, "unreachable" if not loads else "reachable", len(rfs), len(silent)), key_)
     # ---- R9: what the boost parsers throw (unknown option, malformed value) reaches main's handler ------------------------------------------
